@@ -17,7 +17,7 @@ LEAN = os.path.join(ROOT, "lean")
 TIE_DIR = os.path.join(LEAN, "CkcVerif", "Tie")
 PINS = os.path.join(ROOT, "tools", "tie_pins.json")
 STATUS = os.path.join(ROOT, "build", "src_status.json")
-MODULES = ["Five", "Card", "Hand", "SixSeven", "Misc", "Containers", "Text", "TwoCard", "Rank", "Source", "Source2", "Source3", "Rest", "Chen"]
+MODULES = ["Five", "Card", "Hand", "SixSeven", "Misc", "Containers", "Text", "TwoCard", "Rank", "Source", "Source2", "Source3", "Rest", "Chen", "Consts"]
 MARK = "/-! ## axiom audit (written by tools/tie.py --audit) -/"
 
 
